@@ -94,16 +94,24 @@ def make_history(depth):
         extras = []          # model of the registry: list of (name, default)
         ops = []
         for step in range(depth):
-            op = ctx.choice("op", 5)
-            if op == 4:
+            op = ctx.choice("op", 6)
+            if op == 5:
+                # the same new name twice within one call: registered once, with its first default
+                d1, d2 = ctx.real(f"dup_a{step}"), ctx.real(f"dup_b{step}")
+                lpm.add_extra_parameters_to_live_points(["c", "c"], [d1, d2])
+                if "c" not in [e[0] for e in extras]:
+                    extras.append(("c", d1))
+                ops.append("add(c,c)")
+            elif op == 4:
                 lpm.reset_extra_live_points_parameters()
                 extras = []
                 ops.append("reset")
             elif op == 3:
-                # two names at once, defaults unspecified -> NaN
-                new = [n for n in ("a", "b") if n not in [e[0] for e in extras]]
-                lpm.add_extra_parameters_to_live_points(["a", "b"])
-                extras += [(n, math.nan) for n in new]
+                # two names at once with their own defaults (one of them may be registered already)
+                da, db = ctx.real(f"pair_a{step}"), ctx.real(f"pair_b{step}")
+                have = [e[0] for e in extras]
+                lpm.add_extra_parameters_to_live_points(["a", "b"], [da, db])
+                extras += [(n, dv) for n, dv in (("a", da), ("b", db)) if n not in have]
                 ops.append("add(a,b)")
             else:
                 name = "abc"[op]
@@ -134,10 +142,15 @@ class _DF:
 
     def __init__(self, rows, names):
         self.values = rows
+        self.columns = list(names)
 
         class _DT:
-            index = names
+            index = list(names)
         self.dtypes = _DT()
+
+    def __getitem__(self, cols):
+        idx = [self.columns.index(c) for c in cols]
+        return _DF([[r[i] for i in idx] for r in self.values], list(cols))
 
 
 SPECIAL = [None, math.nan, math.inf, -math.inf]
@@ -148,7 +161,7 @@ def make_conversions(k, n, with_extra):
         from nessai import livepoint as lpm
         mut = getattr(ctx, "mutant", None)
         lpm.reset_extra_live_points_parameters()
-        names = [f"p{j}" for j in range(k)]
+        names = ["zeta", "alpha", "mid", "beta"][:k]   # deliberately not in alphabetical order
         extras = []
         if with_extra:
             dv = ctx.real("extra_default")
